@@ -87,6 +87,37 @@ def mutate(rng, data):
     return bytes(b)
 
 
+def spec_tie(run, files):
+    """The SPEC of Props/C01_spec.v (Model/Spec.v: spec_meaning, spec_tokens - what reader_refines_spec says the
+    reader returns) is evaluated inside Coq on the generated file SYNTAX and compared with the Python reference
+    rules (tdmsgen.meaning / expected_tokens) that the implementation is compared with above; FileSyn.ser_file is
+    compared with the independent encoder on the same syntax.  So the specification is exercised, not trusted."""
+    import spec_tie as T
+    files = files[:run.pick(240, 3000)]
+    cases, keep = [], []
+    for segs in files:
+        try:
+            expected = G.expected_tokens(G.meaning(segs))
+        except G.SpecError:
+            continue
+        keep.append(segs)
+        cases.append("((%s, %s), %s)" % (T.c_segs(segs), G.toks_to_coq(expected), H.chex(G.ser_file(segs))))
+    for fn, what in (("tie_tok", "spec_tokens (spec_meaning syntax) differs from the Python reference meaning"),
+                     ("tie_ser", "FileSyn.ser_file differs from the independent encoder")):
+        bad, errors = H.run_sharded("C01", T.IMPORTS, "tie_case", fn, cases, shard=max(1, -(-len(cases) // H.NCPU)),
+                                    extra_defs=T.EXTRA_DEFS, tag="spec_" + fn, timeout=900)
+        for name, out in errors:
+            run.violation("spec-tie-coq-error", "Coq failed on the specification tie (%s): %s" % (name, out[-400:]),
+                          {"op": "spec_tie", "fn": fn}, kind="correspondence-broken", no_input=True)
+        for i in sorted(bad)[:5]:
+            run.violation("spec-tie-" + fn, "Model/Spec.v vs harness/tdmsgen.py: %s" % what,
+                          {"op": "read", "hex": G.ser_file(keep[i]).hex(), "desc": R.describe_segs(keep[i])},
+                          kind="correspondence-broken", no_input=True)
+        run.count("spec_tie_%s_cases" % fn, len(cases))
+        run.count("spec_tie_%s_disagreements" % fn, len(bad))
+    run.cov["traces_validated_against_impl"] = run.cov.get("traces_validated_against_impl", 0)
+
+
 def main():
     run = H.Run("C01")
     run.prove()
@@ -103,8 +134,10 @@ def main():
         run.finish()
     n = run.pick(320, 12000)
     cases, meta = [], []
+    spec_files = []
     for i in range(n):
         segs = G.gen_file(rng, type_focus_params(rng))
+        spec_files.append(segs)
         data, impl, failed, nontrivial = check_file(run, segs, "wellformed")
         if nontrivial:
             run.cov["distinct_nontrivial"] += 1
@@ -114,6 +147,7 @@ def main():
         if i < 2:
             run.sample({"segments": R.describe_segs(segs), "bytes": len(data)})
     R.run_agree_all(run, cases, meta, "wf", "well-formed file")
+    spec_tie(run, spec_files)
     # malformed stream: accept/reject agreement, and equal content when both accept
     m = run.pick(200, 6000)
     cases, meta = [], []
